@@ -36,7 +36,12 @@ RULE = ('parser/faults: a valid config (bindings, macros, blocks, imports, inclu
         'module, bindings and references through them; as a string, a file, an included file) with one fault out of 7 '
         'kinds at a random position: class and location chain of the error, then config_str(), the recorded imports, the '
         'store and the outcome of LATER parses that name each function without importing it, against a fresh gin given '
-        'the preceding statements only.')
+        'the preceding statements only. line-endings (implementation only): texts written with LF / CRLF / CR / a mixture, '
+        'handed over as a string, a list of strings, a file object (binary, newline=\'\', text mode), a path, through a '
+        'reader, with include trees, holding layout characters that are no line breaks (form feed, VT, FS, GS, RS, NEL, '
+        'U+2028, U+2029 as page-break lines, in comments, strings, multi-line values), one fault out of 12 kinds: class '
+        'and (file, line) chain / SyntaxError.lineno against the harness\'s own line count, store and "# Set in" comments '
+        'against its bookkeeping, config_str(show_provenance=True) against a fresh gin given the preceding lines with LF.')
 TRUSTED_BASE = [
     'Coq 8.16.1 kernel; vm_compute in the correspondence run; no native_compute',
     'hand-written models coq/Model/Parser.v + coq/Model/Stmt.v of gin/config_parser.py and gin/config.py:833-869,2366-2404,2492-2505, utils.py:21-60; tied to /repo by harness/textm.py + harness/props/c16.py',
@@ -1411,5 +1416,437 @@ class DynRegistrationEngine(Engine):
     return {'obs': obs, 'fails': fails[:4], 'nontrivial': nontrivial, 'tags': tags}
 
 
+# ---- line-ending conventions and layout characters (implementation only: engine line-endings)
+# characters that SOME notions of "line" (str.splitlines) count as line breaks; for Python, for universal newlines and
+# for the tokenizer they are not: a form feed is white space, the others are ordinary characters of a comment / a string
+LE_SEPS = ['\x0c', '\x0b', '\x1c', '\x1d', '\x1e', '\x85', '\u2028', '\u2029']
+LE_EOLS = {'lf': '\n', 'crlf': '\r\n', 'cr': '\r'}
+# how the entry text is handed to gin; in the first five the text reaches the parser as written (carriage returns included)
+LE_ENTRY_ROUTES = ['string', 'list', 'binary', 'raw', 'reader', 'text', 'path']
+LE_INC_ROUTES = ['reader', 'disk']        # an included file: through an in-memory reader (as written) / opened by gin
+LE_RAW_ROUTES = ('string', 'list', 'binary', 'raw', 'reader')
+LE_FUNCS = {'le.f1': 'le.f1', 'f1': 'le.f1', 'le.f2': 'le.f2', 'f2': 'le.f2'}
+LE_DECOS = ['plain', 'str', 'trail', 'multi', 'multi3', 'triple', 'ff-lead', 'ff-inside']
+# fault kind -> (exception class, None: SyntaxError with .lineno, 'token': tokenize.TokenError with the line in .args;
+#                lines of the statement ({c}: a layout character), offset of the line the error must name,
+#                bindings the statement applies before it fails [(line offset, scope, selector, parameter, value)])
+LE_FAULTS = {
+    'unknown-param': ('ValueError', ['le.f1.nope = 1'], 0, []),
+    'unknown-cfg': ('ValueError', ['nosuch.x = 1  # f{c}'], 0, []),
+    'unknown-ref': ('ValueError', ['le.f1.x = @nosuch()'], 0, []),
+    'denylisted': ('ValueError', ['s1/f2.dn = 1'], 0, []),
+    'bad-include': ('OSError', ["include 'missing.gin'"], 0, []),
+    'bad-import': ('ModuleNotFoundError', ['import no.such.module'], 0, []),
+    'unknown-param-multiline': ('ValueError', ['le.f1.nope = [1,  # v{c}v', '    2]'], 0, []),
+    'bad-member': ('ValueError', ['s9/le.f1:', '  # m{c}m', '  y = 5', '  nope = 1'], 3, [(2, 's9', 'le.f1', 'y', 5)]),
+    'missing-value': (None, ['le.f1.x ='], 0, []),
+    'bad-selector': (None, ['le.f1..x = 1'], 0, []),
+    'bad-value': (None, ['le.f1.x = 1 +'], 0, []),
+    'unterminated-string': ('token', ["'abc"], 0, []),
+}
+
+
+class LeStop(Exception):
+  def __init__(self, chain):
+    super().__init__()
+    self.chain = chain
+
+
+def le_bind_lines(it):
+  """one binding statement in one of its layouts -> (its lines, the value it binds)"""
+  _, scope, fn, p, n, deco, ch = it
+  key = '%s%s.%s' % (scope + '/' if scope else '', fn, p)
+  if deco == 'str':
+    return ["%s = 'a%sb%d'" % (key, ch, n)], 'a%sb%d' % (ch, n)
+  if deco == 'trail':
+    return ['%s = %d  # t%st' % (key, n, ch)], n
+  if deco == 'multi':
+    return ['%s = [%d,  # q%sq' % (key, n, ch), '    %d]' % (n + 1)], [n, n + 1]
+  if deco == 'multi3':
+    return ['%s = (' % key, "    'v%s', %d," % (ch, n), ')'], ('v' + ch, n)
+  if deco == 'triple':
+    # a string that spans two lines: whatever the line ending of the text, the value holds '\n' (as in Python source)
+    return ['%s = """l1%s' % (key, ch), 'l2 %d"""' % n], 'l1%s\nl2 %d' % (ch, n)
+  if deco == 'ff-lead':
+    return ['\x0c%s = %d' % (key, n)], n
+  if deco == 'ff-inside':
+    return ['%s =\x0c %d' % (key, n)], n
+  return ['%s = %d' % (key, n)], n
+
+
+def le_render(c, i, inc_path):
+  """file i of the case -> (its lines, [(item, 1-based line it begins on, detail)], 1-based first line of the fault or None).
+  The harness's own notion of a line: one element of the list; the text is these elements, each followed by a line ending."""
+  f = c['files'][i]
+  fault = c.get('fault')
+  lines, placed, fault_at = [], [], None
+
+  def put_fault():
+    return len(lines) + 1, lines.extend(l.replace('{c}', fault[3]) for l in LE_FAULTS[fault[2]][1])
+
+  for pos, it in enumerate(f['items']):
+    if fault and fault[0] == i and fault[1] == pos:
+      fault_at = put_fault()[0]
+    start = len(lines) + 1
+    if it[0] == 'b':
+      ls, val = le_bind_lines(it)
+      lines.extend(ls)
+      placed.append((it, start, val))
+    elif it[0] == 'c':
+      lines.append('# c%sc' % it[1])
+    elif it[0] == 'ff':
+      lines.append('\x0c')
+    elif it[0] == 'blank':
+      lines.append(it[1])
+    elif it[0] == 'blk':
+      lines.append('%s%s:' % (it[1] + '/' if it[1] else '', it[2]))
+      members = []
+      for p, n, ch in it[3]:
+        if ch is not None:
+          lines.append('  # m%sm' % ch)
+        members.append((p, n, len(lines) + 1))
+        lines.append('  %s = %d' % (p, n))
+      placed.append((it, start, members))
+    elif it[0] == 'inc':
+      lines.append("include '%s'" % inc_path(it[1]))
+      placed.append((it, start, None))
+  if fault and fault[0] == i and fault[1] >= len(f['items']):
+    fault_at = put_fault()[0]
+  return lines, placed, fault_at
+
+
+def le_text(lines, eol, final, seed):
+  """the lines under a line-ending convention ('mixed': a convention per line)"""
+  import random
+  rng = random.Random('le/%s' % seed)
+  out, prev = [], ''
+  for n, l in enumerate(lines):
+    if eol == 'mixed':
+      # '\r' directly followed by '\n' would read as ONE line break
+      e = rng.choice(['\r', '\r\n'] if (l == '' and prev == '\r') else ['\n', '\r\n', '\r'])
+    else:
+      e = LE_EOLS[eol]
+    if n == len(lines) - 1 and not final:
+      e = ''
+    out.append(l + e)
+    prev = e
+  return ''.join(out)
+
+
+class LineEndingEngine(Engine):
+  """Where a statement is does not depend on how the text's lines END.  Config texts (a bindings string, a list of
+  strings, a file object opened in binary mode / with newline='' / in text mode, a path gin opens itself, a file behind a
+  registered reader; include trees of depth <= 3 whose files come through a reader as written or are opened by gin)
+  written with LF, CRLF, CR or a mixture of the three, with and without a final line ending, holding LAYOUT characters
+  that are no line breaks (form feed as a page-break line, at the start of / inside a statement; form feed, VT, FS, GS, RS,
+  NEL, U+2028, U+2029 inside comments, trailing comments, strings, multi-line values, triple-quoted strings spanning
+  lines, block-member comments), with ONE fault out of 12 kinds at a random statement position of a random file.  A line is
+  what Python reads as one (universal newlines: LF, CRLF, CR); the harness keeps the texts as lists of lines and counts
+  by itself.  Checked: the class of the error and the (file, line) chain of its message (SyntaxError.lineno / the line of
+  the TokenError for syntactic faults); the store afterwards against the harness's own bookkeeping of the statements
+  preceding the fault (values included: the layout characters stay in the strings, a line break inside a triple-quoted
+  string is '\\n'); the '# Set in <file>:<line>:' comment of every binding printed by config_str(show_provenance=True);
+  scope / lock / parse contexts; and config_str(show_provenance=True) as a whole against a fresh gin given only the lines
+  preceding the fault, written with LF.  Implementation only: the texts of Model/Parser.v are token lists per line."""
+  name = 'line-endings'
+  model = False
+
+  def budget(self, tier):
+    return 110 if tier == 'quick' else 5000
+
+  def corpus(self):
+    def b(fn, p, n, deco='plain', ch='', scope=''):
+      return ['b', scope, fn, p, n, deco, ch]
+    out = []
+    # a page break (a form feed on a line of its own) between the statements, then the fault
+    page = [b('f1', 'x', 1), ['ff'], b('f1', 'y', 2), b('le.f2', 'x', 3)]
+    for eol, route in (('crlf', 'string'), ('cr', 'binary'), ('crlf', 'raw'), ('lf', 'string'), ('cr', 'reader')):
+      out.append({'files': [{'items': page, 'eol': eol, 'route': route, 'final': True}],
+                  'fault': [0, 3, 'unknown-param', ''], 'seed': 1})
+    # no fault: provenance of statements after layout characters inside a comment, a string, a multi-line value
+    quiet = [['c', '\u2028'], b('f1', 'x', 1, 'str', '\x0c'), b('f1', 'y', 2, 'multi', '\x85', 's1'),
+             ['blk', 's2', 'le.f2', [['x', 4, '\x1c'], ['y', 5, None]]], b('f2', 'y', 6, 'triple', '\x0b'), b('f1', 'z', 7)]
+    for eol, route in (('crlf', 'list'), ('cr', 'string'), ('mixed', 'binary')):
+      out.append({'files': [{'items': quiet, 'eol': eol, 'route': route, 'final': eol != 'cr'}], 'fault': None, 'seed': 2})
+    # an include tree: the failing include statement follows a page break, the fault in the included file follows a
+    # comment holding U+2029; the included file comes through a reader as written / is opened by gin
+    for eol, route, inc_route, kind in (('crlf', 'string', 'reader', 'unknown-cfg'), ('cr', 'raw', 'disk', 'bad-member'),
+                                        ('mixed', 'reader', 'reader', 'missing-value')):
+      out.append({'files': [{'items': [b('f1', 'x', 0), ['ff'], ['inc', 1], b('f1', 'z', 9)], 'eol': eol, 'route': route, 'final': True},
+                            {'items': [['c', '\u2029'], b('f2', 'x', 1, 'trail', '\x1e'), b('f2', 'y', 2)], 'eol': eol,
+                             'route': inc_route, 'final': True}],
+                  'fault': [1, 2, kind, '\x1d'], 'seed': 3})
+    return out
+
+  def gen(self, rng, tier):
+    nfiles = rng.choice([1, 1, 2, 2, 3])
+    eol0 = rng.choice(['crlf', 'cr', 'mixed', 'crlf', 'cr', 'lf'])
+
+    def ch():
+      return rng.choice(LE_SEPS) if rng.random() < 0.8 else ''
+
+    def item():
+      r = rng.random()
+      scope = rng.choice(['', '', 's1', 's1/s2'])
+      if r < 0.5:
+        return ['b', scope, rng.choice(list(LE_FUNCS)), rng.choice('xyz'), rng.randint(0, 99), rng.choice(LE_DECOS), ch()]
+      if r < 0.65:
+        return ['c', ch()]
+      if r < 0.77:
+        return ['ff']
+      if r < 0.82:
+        return ['blank', rng.choice(['', '  '])]
+      return ['blk', scope, rng.choice(list(LE_FUNCS)),
+              [[p, rng.randint(0, 99), rng.choice([None, ch()])] for p in rng.sample('xyz', rng.randint(1, 3))]]
+
+    files = []
+    for i in range(nfiles):
+      files.append({'items': [item() for _ in range(rng.randint(1, 5))],
+                    'eol': eol0 if rng.random() < 0.7 else rng.choice(['lf', 'crlf', 'cr', 'mixed']),
+                    'route': rng.choice(LE_ENTRY_ROUTES[:5] + LE_ENTRY_ROUTES) if i == 0 else rng.choice(['reader', 'reader', 'disk']),
+                    'final': rng.random() < 0.85})
+    for j in range(1, nfiles):
+      parent = files[rng.randrange(j)]['items']
+      parent.insert(rng.randint(0, len(parent)), ['inc', j])
+    fault = None
+    if rng.random() < 0.88:
+      i = rng.randrange(nfiles)
+      n = len(files[i]['items'])
+      fault = [i, rng.randint(min(2, n), n) if rng.random() < 0.6 else rng.randint(0, n), rng.choice(list(LE_FAULTS)), ch()]
+    return {'files': files, 'fault': fault, 'seed': rng.randint(0, 10 ** 6)}
+
+  def shrink(self, c):
+    for i, f in enumerate(c['files']):
+      for pos, it in enumerate(f['items']):
+        if it[0] == 'inc':
+          continue
+        b = copy.deepcopy(c)
+        del b['files'][i]['items'][pos]
+        if b['fault'] and b['fault'][0] == i and b['fault'][1] > pos:
+          b['fault'][1] -= 1
+        yield b
+      for pos, it in enumerate(f['items']):
+        if it[0] == 'b' and (it[5] != 'plain' or it[6]):
+          b = copy.deepcopy(c)
+          b['files'][i]['items'][pos][5:7] = ['plain', '']
+          yield b
+      if f['eol'] == 'mixed':
+        for e in ('crlf', 'cr'):
+          b = copy.deepcopy(c)
+          b['files'][i]['eol'] = e
+          yield b
+      if not f['final']:
+        b = copy.deepcopy(c)
+        b['files'][i]['final'] = True
+        yield b
+
+  # -- one run of gin
+  def run_one(self, tmp, specs):
+    """specs: [{'name', 'route', 'text'}], the first is the entry.  -> (exception or None, state afterwards)"""
+    import os
+    gin = C.fresh_gin()
+    env = {'gin': gin}
+    exec("@gin.configurable(module='le')\ndef f1(x=0, y=0, z=0):\n  return (x, y, z)\n"  # pylint: disable=exec-used
+         "@gin.configurable(module='le', denylist=['dn'])\ndef f2(x=0, y=0, z=0, dn=0):\n  return (x, y, z, dn)\n", env)
+    mem = {}
+    for s in specs:
+      if s['route'] in ('reader', 'string', 'list'):
+        mem[s['name']] = s['text']
+      else:
+        with open(os.path.join(tmp, s['name']), 'wb') as fh:
+          fh.write(s['text'].encode('utf8'))
+    gin.config.register_file_reader(lambda path: textm.NamedStringIO(mem[path], path), lambda path: path in mem)
+    entry = specs[0]
+    path = os.path.join(tmp, entry['name'])
+    raised = None
+    try:
+      if entry['route'] == 'string':
+        gin.parse_config(entry['text'])
+      elif entry['route'] == 'list':
+        gin.parse_config(entry['text'].split('\n'))          # gin joins the elements with '\n': the same text
+      elif entry['route'] == 'reader':
+        gin.parse_config_file(entry['name'])
+      elif entry['route'] == 'path':
+        gin.parse_config_file(path)
+      else:
+        kw = {'binary': dict(mode='rb'), 'raw': dict(mode='r', newline='', encoding='utf8'),
+              'text': dict(mode='r', encoding='utf8')}[entry['route']]
+        with open(path, **kw) as fh:
+          gin.parse_config(fh)
+    except Exception as e:  # pylint: disable=broad-except
+      raised = e
+    cfg = gin.config
+    try:
+      text = gin.config_str(show_provenance=True)
+    except Exception as e:  # pylint: disable=broad-except
+      text = 'config_str(show_provenance=True) raised %s: %s' % (type(e).__name__, str(e)[:200])
+    state = {'text': text.replace(tmp + os.sep, ''),
+             'store': {k: dict(d) for k, d in cfg._CONFIG.items()},  # pylint: disable=protected-access
+             'scope': list(gin.current_scope()), 'locked': gin.config_is_locked(), 'contexts': len(cfg._PARSE_CONTEXTS)}  # pylint: disable=protected-access
+    return raised, state
+
+  def impl(self, c):
+    import os
+    import re
+    import shutil
+    import tempfile
+    import tokenize
+    files, fault = c['files'], c.get('fault')
+    names = ['f%d.gin' % i for i in range(len(files))]
+    tmp = tempfile.mkdtemp(prefix='c16le')
+    fails = []
+    try:
+      def inc_path(j):
+        return os.path.join(tmp, names[j]) if files[j]['route'] == 'disk' else names[j]
+      rendered = [le_render(c, i, inc_path) for i in range(len(files))]
+      shown = ['' if (i == 0 and f['route'] in ('string', 'list')) else names[i] for i, f in enumerate(files)]
+
+      # the harness's own bookkeeping: the statements in the order they are reached, up to the fault
+      want, prov, reached = {}, {}, []
+
+      def setv(i, scope, sel, p, val, line):
+        want.setdefault((scope, LE_FUNCS[sel]), {})[p] = val
+        prov[(scope, LE_FUNCS[sel], p)] = (shown[i], line)
+
+      def walk(i):
+        _, placed, fault_at = rendered[i]
+        reached.append(i)
+        k = 0
+        for pos in range(len(files[i]['items']) + 1):
+          if fault and fault[0] == i and pos == min(fault[1], len(files[i]['items'])):
+            for off, scope, sel, p, val in LE_FAULTS[fault[2]][3]:
+              setv(i, scope, sel, p, val, fault_at + off)
+            raise LeStop([[shown[i], fault_at + LE_FAULTS[fault[2]][2]]])
+          if pos == len(files[i]['items']):
+            break
+          it = files[i]['items'][pos]
+          if it[0] not in ('b', 'blk', 'inc'):
+            continue
+          _, start, detail = placed[k]
+          k += 1
+          if it[0] == 'b':
+            setv(i, it[1], it[2], it[3], detail, start)
+          elif it[0] == 'blk':
+            for p, n, line in detail:
+              setv(i, it[1], it[2], p, n, line)
+          else:
+            try:
+              walk(it[1])
+            except LeStop as s:
+              s.chain.append([shown[i], start])
+              raise
+
+      chain = None
+      try:
+        walk(0)
+      except LeStop as s:
+        chain = s.chain
+
+      specs = [{'name': names[i], 'route': f['route'],
+                'text': le_text(rendered[i][0], f['eol'], f['final'], '%s/%d' % (c.get('seed', 0), i))} for i, f in enumerate(files)]
+      raised, state = self.run_one(tmp, specs)
+      what = 'texts %r' % [(s['route'], s['text']) for s in specs]
+
+      # 1. the error: class and where
+      if state['scope'] or state['locked'] or state['contexts'] != 1:
+        fails.append(('parse-left-state-dirty', 'scope %r, locked %r, %d parse contexts after the call' %
+                      (state['scope'], state['locked'], state['contexts'])))
+      msg = str(raised).replace(tmp + os.sep, '') if raised is not None else ''
+      if chain is None:
+        if raised is not None:
+          fails.append(('valid-config-rejected', '%s: %s: %s' % (what, type(raised).__name__, msg[:300])))
+      elif raised is None:
+        fails.append(('fault-not-reported', 'fault %r was accepted: %s' % (fault, what)))
+      else:
+        cls = LE_FAULTS[fault[2]][0]
+        line = chain[0][1]
+        if cls is None:
+          if not isinstance(raised, SyntaxError):
+            fails.append(('error-class-changed', 'syntactic fault %s on line %d: %s raised %s: %s' %
+                          (fault[2], line, what, type(raised).__name__, msg[:300])))
+          elif raised.lineno != line:
+            fails.append(('error-location-chain', 'syntactic fault %s: SyntaxError.lineno is %r, the statement is on line %d of %r: %s' %
+                          (fault[2], raised.lineno, line, chain[0][0] or 'bindings string', what)))
+        elif cls == 'token':
+          if not isinstance(raised, (tokenize.TokenError, SyntaxError)):
+            fails.append(('error-class-changed', 'tokenizer fault on line %d: %s raised %s: %s' %
+                          (line, what, type(raised).__name__, msg[:300])))
+          else:
+            got = raised.lineno if isinstance(raised, SyntaxError) else raised.args[1][0]
+            if got != line:
+              fails.append(('error-location-chain', 'tokenizer fault: the error names line %r, the text at fault is on line %d '
+                            'of %r: %s' % (got, line, chain[0][0] or 'bindings string', what)))
+        elif type(raised).__name__ != cls:
+          fails.append(('error-class-changed', 'fault %s: expected %s, %s raised %s: %s' %
+                        (fault[2], cls, what, type(raised).__name__, msg[:300])))
+        else:
+          got = [[mt.group(1) or '', int(mt.group(2))] for mt in re.finditer(LOC_RE, msg)]
+          if got != chain:
+            fails.append(('error-location-chain', 'fault %s: the message names %r; the offending statement begins at %r '
+                          '(then the include statements above it): %s' % (fault[2], got, chain, what)))
+
+      # 2. exactly the preceding statements have taken effect (the harness's bookkeeping, values included)
+      got_store = {k: {p: repr(v) for p, v in d.items()} for k, d in state['store'].items() if d}
+      want_store = {k: {p: repr(v) for p, v in d.items()} for k, d in want.items()}
+      if got_store != want_store:
+        diff = {str(k): (want_store.get(k), got_store.get(k)) for k in set(want_store) | set(got_store)
+                if want_store.get(k) != got_store.get(k)}
+        fails.append(('prefix-not-applied', 'fault %r: configurable -> (bound by the statements preceding the fault, bound '
+                      'now): %r: %s' % (fault, diff, what)))
+      else:
+        # 3. each binding is attributed to the file and line of the statement that last set it
+        lines = state['text'].split('\n')
+        comments = {}
+        for n, l in enumerate(lines):
+          if ' = ' in l and not l.startswith('#'):
+            prev = lines[n - 1] if n else ''
+            comments[l.split(' = ', 1)[0]] = prev if prev.startswith('# Set in ') else None
+        for (scope, sel, p), (fname, line) in sorted(prov.items()):
+          keys = [k for k in comments if k in ('%s%s.%s' % (scope + '/' if scope else '', s, p) for s in (sel, sel.split('.')[1]))]
+          exp = '# Set in %s:%d:' % (fname or 'bindings string', line)
+          if len(keys) != 1:
+            fails.append(('binding-not-printed', '%s%s.%s (set at %r line %d) is not printed once by config_str: %r: %s' %
+                          (scope + '/' if scope else '', sel, p, fname, line, sorted(comments), what)))
+            break
+          if comments[keys[0]] != exp:
+            fails.append(('provenance-comment-wrong', '%s is printed under the comment %r; the statement that last set it '
+                          'begins on line %d of %r, so the comment must be %r: %s' %
+                          (keys[0], comments[keys[0]], line, fname or 'bindings string', exp, what)))
+            break
+        # 4. the independent oracle: a fresh gin given only the lines preceding the fault, written with LF
+        if not fails:
+          cut = {i: len(rendered[i][0]) for i in range(len(files))}
+          if chain is not None:
+            # the file at fault keeps the lines before the fault (before the failing member: the block's earlier members
+            # stay), every file above it the lines up to and including its include statement
+            i = fault[0]
+            cut[i] = chain[0][1] - 1
+            for lvl in range(1, len(chain)):
+              parent = [j for j in reached if any(it[0] == 'inc' and it[1] == i for it in files[j]['items'])][0]
+              cut[parent] = chain[lvl][1]
+              i = parent
+          pspecs = []
+          for i, f in enumerate(files):
+            plines = le_render(c, i, lambda j: names[j])[0][:cut[i]]
+            pspecs.append({'name': names[i], 'route': 'string' if shown[i] == '' else 'reader',
+                           'text': ''.join(l + '\n' for l in plines)})
+          praised, pstate = self.run_one(tmp, pspecs)
+          if praised is not None:
+            fails.append(('harness-prefix-config-invalid', '%s: %s: %r' % (type(praised).__name__, str(praised)[:300],
+                                                                        [s['text'] for s in pspecs])))
+          elif pstate['text'] != state['text']:
+            fails.append(('config-str-differs-from-prefix', 'fault %r: config_str(show_provenance=True) afterwards %r; a fresh '
+                          'gin given only the lines preceding the fault, written with LF, prints %r: %s' %
+                          (fault, state['text'], pstate['text'], what)))
+    finally:
+      shutil.rmtree(tmp, ignore_errors=True)
+    raw_with_layout = any(files[i]['route'] in LE_RAW_ROUTES and files[i]['eol'] != 'lf' and
+                          any(ch in l for l in rendered[i][0] for ch in LE_SEPS) for i in reached)
+    tags = ['route:' + files[0]['route'], 'fault:' + (fault[2] if fault else 'none')] + sorted({'eol:' + f['eol'] for f in files})
+    obs = T('LineEndings', textm.err_obs(raised) if raised is not None else T('Ok'),
+            sorted([list(k), sorted(d.items())] for k, d in got_store.items()))
+    return {'obs': obs, 'fails': fails[:3], 'nontrivial': bool(fault) and raw_with_layout, 'tags': tags}
+
+
 ENGINES = [FaultEngine(), ProvenanceEngine(), ImportFaultEngine(), LateRegistrationEngine(), ValueFaultEngine(),
-           DynRegistrationEngine()]
+           DynRegistrationEngine(), LineEndingEngine()]
